@@ -236,10 +236,22 @@ func vh10Session(t *testing.T, o *vhOut, id int, n int, phases []vh10Phase, sub 
 	for _, ph := range phases {
 		var wg sync.WaitGroup
 		expect := 0
+		arrived := func() {
+			deadline := time.After(5 * time.Second)
+			for expect > 0 {
+				select {
+				case <-srv.got:
+					expect--
+				case <-deadline:
+					return
+				}
+			}
+		}
 		for _, c := range ph.Calls {
 			wg.Add(1)
 			if c.Fail {
-				// sequential: this call's first Write fails
+				// once the requests started so far are in flight, this call's first Write fails
+				arrived()
 				atomic.StoreInt32(&conn.failNext, 1)
 				one(c.I, &wg)
 				continue
@@ -250,16 +262,7 @@ func vh10Session(t *testing.T, o *vhOut, id int, n int, phases []vh10Phase, sub 
 			go one(c.I, &wg)
 		}
 		// the server acts once every request of the phase is in flight
-		deadline := time.After(5 * time.Second)
-	wait:
-		for expect > 0 {
-			select {
-			case <-srv.got:
-				expect--
-			case <-deadline:
-				break wait
-			}
-		}
+		arrived()
 		for _, it := range ph.Script {
 			srv.do(it)
 		}
@@ -412,5 +415,17 @@ func TestVerifC10(t *testing.T) {
 			vh10Session(t, o, id, idx, ph, "sendfail")
 			id++
 		}
+		// a call is in flight while another call's send fails; then a frame with an unknown tag; the
+		// connection stays usable: every later call that is answered must return its reply
+		ph := []vh10Phase{{Calls: []vh10Call{{I: 0}, {I: 1, Fail: true}}, Script: []vh10Item{{K: "unknown"}}}}
+		for q := 2; q < 10; q++ {
+			ph = append(ph, vh10Phase{Calls: calls(q, q+1), Script: replies([]int{q})})
+		}
+		vh10Session(t, o, id, 10, ph, "sendfail-inflight")
+		id++
+		// the same with a connection error instead: nothing may hang
+		vh10Session(t, o, id, 3, []vh10Phase{{Calls: []vh10Call{{I: 0}, {I: 1, Fail: true}}, Script: []vh10Item{{K: "close"}}},
+			{Calls: calls(2, 3), Script: []vh10Item{{K: "close"}}}}, "sendfail-close")
+		id++
 	}
 }
